@@ -1,6 +1,10 @@
 #!/usr/bin/env bash
-# Build the harness (all driver binaries) offline against /repo's working tree.
-set -e
-cd "$(dirname "$0")/harness"
+# Build the harness (the driver binary of every claimed property) offline against /repo's working tree.
+set -u
+cd "$(dirname "$0")"
 export CARGO_NET_OFFLINE=true
-RUSTFLAGS="--cfg vls_verif" cargo build --offline --release --bins 2>&1 | tail -3
+rc=0
+for p in $(python3 -c "import json;print(' '.join(c['property_id'] for c in json.load(open('MANIFEST.json'))['checks']))"); do
+  ./check "$p" --build-only || rc=1
+done
+exit $rc
